@@ -439,6 +439,39 @@ def gen_C14(tier, seed):
                 if fid == 101 or sub == (1 if two_files else 0):
                     p.write(f, route=route, data_arrays={d: p.array(second), g: p.array(second * 3)}, fname=('w2.dlis' if fid == 1 else 'fresh.dlis'))
         progs.append(p.build())
+    # values the library fills in on its own at a write (LONG-NAME of a channel = its name, DIMENSION of a parameter / computation
+    # from the shape of its values, ELEMENT-LIMIT of a channel = its DIMENSION) and the user's later changes of what they came from
+    for i in range(6):
+        p = Prog(f'C14-defaults-{i}', {'kind': 'defaults', 'what': ['rename', 'parshape', 'compshape', 'chdim', 'rename-before', 'parflat'][i]})
+        for fid in (1, 101):
+            if fid == 101:
+                p.next_proc(fresh=True)
+            first = fid == 1
+            p.file(fid, vrl=512)
+            lf = p.lf(fid, lf=fid, fh_id='DEFAULTS')
+            p.origin(lf, name='O')
+            c = p.channel(lf, 'A' if first and i in (0, 4) else 'B', data=np.arange(3, dtype='float64'), dataset_name='dset')
+            wide = p.channel(lf, 'W', data=np.arange(12, dtype='float64').reshape(3, 4), **({'dimension': L(I(4))} if i == 3 else {}))
+            p.frame(lf, 'FR', [c, wide])
+            z1, z2 = p.add(lf, 'zone', 'Z1'), p.add(lf, 'zone', 'Z2')
+            v2 = L(L(I(1), I(2)), L(I(3), I(4)))
+            v3 = L(L(I(1), I(2), I(3)), L(I(4), I(5), I(6)))
+            flat = L(I(7), I(8))
+            par = p.add(lf, 'parameter', 'P', zones=L(R(z1), R(z2)), values=(v2 if first else v3) if i == 1 else (v2 if first else flat) if i == 5 else v2)
+            comp = p.add(lf, 'computation', 'C', zones=L(R(z1), R(z2)), values=(v2 if first else v3) if i == 2 else v2)
+            if first:
+                if i != 4:
+                    p.write(fid, fname='first.dlis')
+                if i in (0, 4):
+                    p.rename(c, 'B')
+                elif i == 1:
+                    p.set(par, 'values', v3)
+                elif i == 2:
+                    p.set(comp, 'values', v3)
+                elif i == 5:
+                    p.set(par, 'values', flat)
+            p.write(fid, fname='second.dlis' if first else 'fresh.dlis')
+        progs.append(p.build())
     # the file header (id, sequence number) changed between two writes: the next file is the one of a fresh process
     for i in range(4):
         p = Prog(f'C14-reheader-{i}', {'kind': 'reheader'})
